@@ -167,7 +167,31 @@ def fam_calls(tier, rng):
     return out
 
 
-FAMILIES = [fam_algorithms, fam_compose, fam_calls]
+def fam_element_args(tier, rng):
+    """the functions applied to array elements whose subscript is computed by another function (directly, inside an
+    arithmetic expression, nested): the element the subscript names, and the array unchanged afterwards"""
+    out = []
+    words = ["zero", "first", "second", "third", "fourth"]
+    t = var("T", "$")
+    for fn in ("LEFT$", "RIGHT$", "MID2", "MID3", "UCASE$", "LEN", "INSTR", "LTRIM$"):
+        for sub_form in ("call", "call+1", "1+call", "nested", "call*call", "par"):
+            b = B()
+            main = [b.dim("W", "$", [{"lo": lit("I", 0), "hi": lit("I", 4), "nolo": False}])]
+            main += [b.let(idx("W", "$", [lit("I", k)]), S(w)) for k, w in enumerate(words)]
+            main.append(b.let(t, S("ab")))
+            ln = bcall("LEN", t)
+            sub = {"call": ln, "call+1": bin_("+", ln, N(1)), "1+call": bin_("+", N(1), ln), "nested": bcall("LEN", bcall("LEFT$", t, bcall("LEN", S("x")))),
+                   "call*call": bin_("*", ln, bcall("INSTR", t, S("b"))), "par": par(bin_("-", ln, N(1)))}[sub_form]
+            el = idx("W", "$", [sub])
+            e = {"LEFT$": bcall("LEFT$", el, N(2)), "RIGHT$": bcall("RIGHT$", el, N(2)), "MID2": bcall("MID$", el, N(2)), "MID3": bcall("MID$", el, N(2), N(2)),
+                 "UCASE$": bcall("UCASE$", el), "LEN": bcall("LEN", el), "INSTR": bcall("INSTR", el, S("r")), "LTRIM$": bcall("LTRIM$", el)}[fn]
+            main.append(show(b, e) if fn not in ("LEN", "INSTR") else b.print(e))
+            main.append(b.print(*[idx("W", "$", [lit("I", k)]) for k in range(5)]))
+            out.append({"fam": "element-args:%s/%s" % (fn, sub_form), "prog": prog(main)})
+    return out
+
+
+FAMILIES = [fam_algorithms, fam_compose, fam_calls, fam_element_args]
 
 
 def cases(tier, seed):
